@@ -5,6 +5,7 @@ import (
 	"bytes"
 	"encoding/json"
 	"fmt"
+	"os"
 	"reflect"
 	"regexp"
 	"strings"
@@ -25,6 +26,10 @@ func TestReplay(t *testing.T) { harness.ReplayPath(t) }
 
 type outcome struct {
 	accepted, canonical, fragmented bool
+	aBoxTree, aSegment, aOpt        bool // clause A: encode modes in which the two encoders were compared
+	boxFileCrossed                  bool // box level vs file level compared (the file decoders accepted the lone box)
+	boxFileRejected                 bool // ... a file decoder rejected the lone box (cross-box requirements): no claim
+	boxFileSencSkipped              bool // ... left out: top-level moof holding a senc box (see below)
 }
 
 var last outcome
@@ -75,6 +80,11 @@ func checkInterchange(c boxprop.Case) *harness.Fail {
 			if (errW == nil) != (errS == nil) {
 				return harness.Failf("C03|encoders|one encoder fails and the other succeeds", "%s: Encode: %v, EncodeSW: %v", mode, errW, errS)
 			}
+			if errW == nil {
+				last.aBoxTree = last.aBoxTree || boxTree
+				last.aSegment = last.aSegment || (!boxTree && d1.File != nil && d1.File.IsFragmented())
+				last.aOpt = last.aOpt || opt
+			}
 			if errW == nil && !bytes.Equal(w, s) {
 				return harness.Failf("C03|encoders|Encode and EncodeSW bytes differ", "%s: %d vs %d bytes%s", mode, len(w), len(s), firstDiff(w, s))
 			}
@@ -114,25 +124,33 @@ func checkInterchange(c boxprop.Case) *harness.Fail {
 			return harness.Failf("C03|decoders|IsFragmented differs", "")
 		}
 	}
-	// box level vs file level: a file that consists of this one box
-	// (boxes that hold a senc box are left out: the file decoders re-parse senc with an IV size taken from
-	// the init segment or inferred from the data, which a box decoded on its own does not have)
-	if c.Level == "box" && !bytes.Contains(canon, []byte("senc")) && !bytes.Contains(canon, piffSencUUID) {
+	// box level vs file level: a file that consists of this one box.
+	// Left out (and counted): a top-level moof box that holds a senc box. Only for top-level moof boxes do the file
+	// decoders add a second phase that parses senc with an IV size taken from the init segment or, without one as
+	// here, inferred from the data; a moof decoded on its own keeps the senc payload unparsed. Every other box that
+	// holds a senc box (traf, senc itself, the PIFF uuid form, containers around them) takes the same route at both
+	// levels and is compared.
+	if c.Level == "box" {
+		if skipMoofSenc && topType(canon) == "moof" && (bytes.Contains(canon, []byte("senc")) || bytes.Contains(canon, piffSencUUID)) {
+			last.boxFileSencSkipped = true
+			return nil
+		}
 		for _, p := range []string{"reader", "sr"} {
 			df, err := boxprop.Decode(canon, "file", p)
 			if err != nil {
 				// the file decoders add cross-box requirements (e.g. mdat after moof); only count it
+				last.boxFileRejected = true
 				continue
 			}
 			if len(df.File.Children) != 1 {
 				return harness.Failf("C03|box vs file|file decoder finds a different number of boxes", "%d", len(df.File.Children))
 			}
-			// The file decoders add a second parsing phase (senc boxes are parsed with the IV size from the
-			// init segment), so the structures are compared through what they write.
+			// The structures are compared through what they write.
 			fout, err := boxprop.EncodeW(df, true, false)
 			if err != nil || !bytes.Equal(fout, canon) {
 				return harness.Failf("C03|box vs file|box decoded at file level re-encodes differently", "%s: err %v, %d vs %d bytes%s", p, err, len(fout), len(canon), firstDiff(fout, canon))
 			}
+			last.boxFileCrossed = true
 		}
 	}
 	return nil
@@ -153,6 +171,16 @@ func errSite(err error) string {
 		cls = s[i+2:]
 	}
 	return site + ": " + numRe.ReplaceAllString(cls, "N")
+}
+
+// skipMoofSenc: development aid, VERIF_C03_NOSENCSKIP=1 judges the lone moof boxes with senc as well.
+var skipMoofSenc = os.Getenv("VERIF_C03_NOSENCSKIP") == ""
+
+func topType(in []byte) string {
+	if len(in) >= 8 {
+		return string(in[4:8])
+	}
+	return ""
 }
 
 var piffSencUUID = []byte{0xa2, 0x39, 0x4f, 0x52, 0x5a, 0x9b, 0x4f, 0x14, 0xa2, 0x44, 0x6c, 0x42, 0x7c, 0x64, 0x8d, 0xf4}
@@ -179,7 +207,7 @@ func run(t *testing.T, name string, cfg boxprop.GenConfig) {
 		c := boxprop.Gen(rt, cfg)
 		raw, _ := json.Marshal(c)
 		f := harness.Guarded(func() *harness.Fail { return checkInterchange(c) })
-		cls := []string{"level-" + c.Level, "path-" + c.Path}
+		cls := []string{"level-" + c.Level, "path-" + c.Path, "seedkind-" + c.SeedKind()}
 		if c.Synth != nil {
 			cls = append(cls, "synth", "synth-"+c.Origin)
 		}
@@ -193,6 +221,15 @@ func run(t *testing.T, name string, cfg boxprop.GenConfig) {
 		}
 		if last.fragmented {
 			cls = append(cls, "fragmented-file")
+		}
+		for _, k := range []struct {
+			on   bool
+			name string
+		}{{last.aBoxTree, "A-boxtree"}, {last.aSegment, "A-segment"}, {last.aOpt, "A-opt"}, {last.boxFileCrossed, "boxfile-crossed"},
+			{last.boxFileRejected, "boxfile-rejected-at-file-level(no claim)"}, {last.boxFileSencSkipped, "boxfile-skipped-moof-with-senc"}} {
+			if k.on {
+				cls = append(cls, k.name)
+			}
 		}
 		nt := last.canonical && (c.Level == "file" || len(c.Muts) > 0 || c.Synth != nil)
 		harness.Rec.Case(nt, raw, cls...)
